@@ -131,11 +131,12 @@ func TestC09(t *testing.T) {
 		}
 		return diam.NewMessage(m.code, fl, m.app, 7, 8, ctx.Parser)
 	}
+	var lastReport *diam.ErrorReport
 	drain := func(mux *diam.ServeMux) int {
 		n := 0
 		for {
 			select {
-			case <-mux.ErrorReports():
+			case lastReport = <-mux.ErrorReports():
 				n++
 			default:
 				return n
@@ -170,7 +171,8 @@ func TestC09(t *testing.T) {
 				want := decide(slot[0], slot[1], slot[2])
 				var p string
 				var bad bool
-				p, bad = guard(func() { mux.ServeDIAM(nil, mk(m)) })
+				msg := mk(m)
+				p, bad = guard(func() { mux.ServeDIAM(nil, msg) })
 				got := f.take()
 				reports := drain(mux)
 				desc := fmt.Sprintf("message {app %d code %d request %v}, registered %s (round %d)", m.app, m.code, m.req, subsetNames(subset), round)
@@ -184,6 +186,9 @@ func TestC09(t *testing.T) {
 					return
 				case want == 0 && reports != 1:
 					c.Fail(sig("no-error-report"), nil, nil, "no handler applies and %d error reports were offered (expected 1); %s", reports, desc)
+					return
+				case want == 0 && (lastReport == nil || lastReport.Message != msg || lastReport.Error == nil):
+					c.Fail(sig("error-report-content"), nil, nil, "no handler applies; the error report offered does not carry the message that was dispatched and an error (report %+v); %s", lastReport, desc)
 					return
 				case want != 0 && (len(got) != 1 || got[0] != want):
 					c.Fail(sig("wrong-handler"), nil, nil, "handlers called %v, expected exactly [%s]; %s", hname(got), hname([]int{want}), desc)
